@@ -137,10 +137,18 @@ package keeper
 
 // ---- voter rewards are claimed once (C13) ----
 
+// gtot(c): all votes of one group in one round; rsum/usum/tsum3(ids, n): the group totals over the first n rounds.
+// A claimant's share is taken of the totals of EVERY round of the dispute, whether or not the claimant voted in it.
+//@ define gtot(c) = c.Support + c.Against + c.Invalid
+//@ define rsum(ids, n) = sum j in [0, n) :: gtot(dispute.VoteCountsByGroup[ids[j]].Reporters)
+//@ define usum(ids, n) = sum j in [0, n) :: gtot(dispute.VoteCountsByGroup[ids[j]].Users)
+//@ define hsum(ids, n) = sum j in [0, n) :: gtot(dispute.VoteCountsByGroup[ids[j]].Tokenholders)
 //@ func (k Keeper).CalculateReward(ctx, addr, id) (reward, err)
+//@ uses sum_congruence
 //@ ensures [reads_only] nothing_written()
 //@ ensures [tips_are_read_as_of_the_block_of_a_round_of_this_dispute] called(GetUserTotalTips) ==> exists j in [0, len(dispute.Disputes[id].PrevDisputeIds)) :: has(dispute.Disputes, dispute.Disputes[id].PrevDisputeIds[j]) && arg(GetUserTotalTips, blockNumber) == dispute.Disputes[dispute.Disputes[id].PrevDisputeIds[j]].BlockNumber
 //@ loop 0 "for _, pastId := range dispute.PrevDisputeIds"
+//@ loop 0 invariant [group_totals_count_every_round_so_far] globalReporterPower == rsum(dispute.PrevDisputeIds, $i) && globalUserPower == usum(dispute.PrevDisputeIds, $i) && globalTokenholderPower == hsum(dispute.PrevDisputeIds, $i)
 //@ loop 0 invariant [tips_are_read_as_of_the_block_of_a_round_of_this_dispute] called(GetUserTotalTips) ==> exists j in [0, len(dispute.PrevDisputeIds)) :: has(dispute.Disputes, dispute.PrevDisputeIds[j]) && arg(GetUserTotalTips, blockNumber) == dispute.Disputes[dispute.PrevDisputeIds[j]].BlockNumber
 
 //@ func (k Keeper).ClaimReward(ctx, addr, id) (err)
